@@ -280,6 +280,51 @@ macro_rules! zcomp {
     };
 }
 
+/// Components without drop glue (plain data): not tracked by the ledger, everything else alike.
+macro_rules! pcomp {
+    ($name:ident, $storage:ty) => {
+        #[derive(Clone, Copy)]
+        pub struct $name {
+            val: u32,
+        }
+        impl Component for $name {
+            type Storage = $storage;
+        }
+        impl Default for $name {
+            fn default() -> Self {
+                $name { val: DEFAULT_VAL }
+            }
+        }
+        impl Tok for $name {
+            const NAME: &'static str = stringify!($name);
+            const ZST: bool = false;
+            fn register(w: &mut World) {
+                w.register::<Self>();
+            }
+            fn register_with(w: &mut World) {
+                w.register_with_storage::<_, Self>(Default::default);
+            }
+            fn make(val: u32) -> Self {
+                $name { val }
+            }
+            fn val(&self) -> u32 {
+                self.val
+            }
+            fn set_val(&mut self, v: u32) {
+                self.val = v;
+            }
+            fn lid(&self) -> Option<u32> {
+                None
+            }
+        }
+    };
+}
+
+pcomp!(PVec, VecStorage<Self>);
+pcomp!(PDense, DenseVecStorage<Self>);
+pcomp!(PDefVec, DefaultVecStorage<Self>);
+pcomp!(PHash, HashMapStorage<Self>);
+
 comp!(CVec, VecStorage<Self>);
 comp!(CDense, DenseVecStorage<Self>);
 comp!(CDefVec, DefaultVecStorage<Self>);
